@@ -36,4 +36,17 @@ def backend(name: str, loop=None, seed: int = 0, schedule: bool = False):
         lat = int((4 * _RedisConsumer.POLLING_WAIT + 1.0 + 1.0) * 1e6)
         return {"make": make, "projector": lambda b: fr.projector(srv), "signature": lambda b: fr.signature(srv),
                 "latency_us": lat, "server": srv, "scheduler": sched}
+    if name == "rabbit":
+        from repid import Connection, RabbitMessageBroker
+
+        from .fakes import amqp as fa
+        srv = fa.Server()
+        dsn = f"amqp://fake-{id(srv)}"
+        fa.install(dsn, srv)
+
+        def make():
+            b = RabbitMessageBroker(dsn)
+            return b, Connection(b)
+        return {"make": make, "projector": lambda b: fa.projector(srv), "signature": lambda b: fa.signature(srv),
+                "latency_us": int((0.2 + 1.0) * 1e6), "server": srv}
     raise ValueError(name)
